@@ -116,9 +116,24 @@ def place_owner_types(prog, fn, pl):
 # ----------------------------------------------------------------------------- paths
 
 
+def _const_consistent(path):
+    """A branch whose (path-resolved) condition is a boolean constant can only take the matching edge
+    (`let b = x || y; if b {..}` lowers to such branches)."""
+    for cond, lab, ty in path["conds"]:
+        if ty != "bool":
+            continue
+        cb = const_bool(cond)
+        if cb is None:
+            continue
+        truth = isinstance(lab, tuple) or lab != 0
+        if truth != cb:
+            return False
+    return True
+
+
 def paths(fn, max_paths=4000):
     """Feasible acyclic entry->return paths (diverging = panicking paths excluded)."""
-    return [p for p in A.decision_table(fn, max_paths=max_paths) if A.feasible(p) and not p["diverges"]]
+    return [p for p in A.decision_table(fn, max_paths=max_paths) if A.feasible(p) and not p["diverges"] and _const_consistent(p)]
 
 
 def truth_on_path(path, cond_re):
